@@ -172,6 +172,75 @@ func scribbleBytes(p any) {
 	walk(reflect.ValueOf(p))
 }
 
+// fillSpare writes into the spare capacity (the octets between len and cap) of every []byte reachable from a result, and
+// of the element slots between len and cap of every slice of strings or byte slices. The owner of a result may grow it
+// in place (append within capacity); that must not reach any other result, any later result or the library's own state.
+func fillSpare(p any) {
+	var walk func(v reflect.Value)
+	fill := func(b []byte) {
+		sp := b[len(b):cap(b)]
+		for i := range sp {
+			sp[i] = 0xEE
+		}
+	}
+	walk = func(v reflect.Value) {
+		switch v.Kind() {
+		case reflect.Ptr, reflect.Interface:
+			if !v.IsNil() {
+				walk(v.Elem())
+			}
+		case reflect.Struct:
+			for i := 0; i < v.NumField(); i++ {
+				walk(v.Field(i))
+			}
+		case reflect.Slice:
+			if v.Type().Elem().Kind() == reflect.Uint8 {
+				fill(v.Bytes())
+				return
+			}
+			for i := 0; i < v.Len(); i++ {
+				walk(v.Index(i))
+			}
+		case reflect.Map:
+			switch m := v.Interface().(type) {
+			case smpp.TLVs:
+				for _, t := range m {
+					fill(t.Value())
+				}
+			case smgp.Options:
+				for _, o := range m {
+					fill(o.Value())
+				}
+			}
+		}
+	}
+	if p != nil {
+		walk(reflect.ValueOf(p))
+	}
+}
+
+// ownerAdds puts one more entry into every optional-parameter container reachable from a decoded PDU (a relay flags a
+// message before it forwards it); other decoded values must not see it.
+func ownerAdds(p any) {
+	v := reflect.ValueOf(p)
+	if v.Kind() != reflect.Ptr || v.IsNil() {
+		return
+	}
+	e := v.Elem()
+	for i := 0; i < e.NumField(); i++ {
+		f := e.Field(i)
+		if !f.CanAddr() || !f.CanSet() {
+			continue
+		}
+		switch m := f.Addr().Interface().(type) {
+		case *smpp.TLVs:
+			m.SetTLV(smpp.NewTLV(0x3ff1, []byte{0xEE}))
+		case *smgp.Options:
+			m.Add(smgp.NewOption(smgp.Tag(0x3ff1), []byte{0xEE}))
+		}
+	}
+}
+
 // withBirth carries a result together with the snapshot taken the moment it
 // was returned (before the fault injector touched a sibling output).
 type withBirth struct {
@@ -460,6 +529,8 @@ func execOp(r *core.Run, t *taskState, o hop) (live any, label string, panicked 
 				sib := ctor[label]()
 				if sib.IDecode(view) == nil {
 					scribbleBytes(sib)
+					fillSpare(sib)
+					ownerAdds(sib)
 				}
 				live = withBirth{live: pdu, birth: pre}
 			}
@@ -905,6 +976,9 @@ func runHistories(r *core.Run, prop string) {
 				if birth == nil {
 					birth = snapshot(live)
 				}
+				// the owner grows its result in place where the capacity allows (never beyond): other results,
+				// later results and the library must not notice
+				fillSpare(live)
 				res := hres{kind: o.kind, live: live, snap: birth, label: label}
 				t.res = append(t.res, res)
 				// (2) equal to the sequential reference at birth
